@@ -123,6 +123,9 @@ def draw_name(draw, model, counter):
         return draw(st.sampled_from(names)), "name_collides_name"
     if r == 6 and rails:
         return draw(st.sampled_from(rails)), "name_collides_rail"
+    grave = [g for g in model.get("_graveyard", []) if g not in names and g not in rails]
+    if r in (7, 8, 9) and grave:
+        return draw(st.sampled_from(grave)), "name_of_deleted_component"
     return fresh_name(draw, model, counter), "fresh"
 
 
@@ -140,6 +143,8 @@ def draw_rail(draw, model, counter, own_name, current=""):
         return own_name, "rail_equals_own_name"
     if r == 9 and current:
         return current, "rail_unchanged"
+    if r == 10 and len(current) > 1:
+        return current[:-1], "rail_prefix_of_current"
     return "rail{}".format(counter), "fresh"
 
 
@@ -224,7 +229,7 @@ def draw_op(draw, model, counter):
         if as_list:
             k = draw(st.integers(1, min(4, len(names))))
             nonload = [x for x in names if kind_of[x] not in S.LOADS]
-            pool2 = nonload if draw(st.integers(0, 9)) else names
+            pool2 = nonload if draw(st.integers(0, 9)) < 7 else names
             k = min(k, len(pool2))
             picks = draw(st.lists(st.sampled_from(pool2), min_size=k, max_size=k, unique=True))
             refs = []
@@ -236,6 +241,14 @@ def draw_op(draw, model, counter):
             if draw(st.integers(0, 14)) == 6 and refs:
                 refs.append(refs[0])
                 cls.append("duplicate_parents")
+            elif draw(st.integers(0, 14)) == 6:
+                # the same component once by name and once by its rail
+                for pn in picks:
+                    if nm[pn]["rail"]:
+                        refs = [r_ for r_ in refs if r_ not in (pn, nm[pn]["rail"])]
+                        refs += [pn, nm[pn]["rail"]]
+                        cls.append("alias_parents")
+                        break
             if draw(st.integers(0, 14)) == 6:
                 refs[0] = "no such parent"
                 cls.append("unknown_parent")
@@ -371,9 +384,9 @@ def apply_to_model(model, op):
         return ""
     if o == "add_comp":
         refs = op["parent"] if isinstance(op["parent"], list) else [op["parent"]]
-        parents = [resolve(model, r) for r in refs]
+        parents = list(dict.fromkeys(resolve(model, r) for r in refs))
         model["nodes"].append(new_node(op["comp"], parents, op["group"], op["rail"]))
-        return ""
+        return "alias_parents_merged" if len(parents) < len(refs) else ""
     if o == "change_comp":
         old = op["target"]
         node = S.node_map(model)[old]
@@ -397,17 +410,21 @@ def apply_to_model(model, op):
         if op["del_childs"]:
             gone = set(S.descendants(model, name)) | {name}
             model["nodes"] = [n for n in model["nodes"] if n["name"] not in gone]
+            model.setdefault("_graveyard", []).extend(sorted(gone))
             return "deleted_subtree"
         tag = "deleted_keep_children"
+        model.setdefault("_graveyard", []).append(name)
         par = node["parents"][0] if node["parents"] else None
         model["nodes"] = [n for n in model["nodes"] if n["name"] != name]
         for n in model["nodes"]:
             if name in n["parents"]:
                 if n["kind"] == "PMux":
                     if par in n["parents"]:
-                        # the new parent is already an input of this mux: effect undefined
-                        n["parents"] = [p for p in n["parents"] if p != name]
-                        tag = "undefined_mux_reattach"
+                        # the new parent is already an input of this mux: the two inputs merge
+                        # (the parent takes the earlier of the two positions)
+                        seq = [par if p == name else p for p in n["parents"]]
+                        n["parents"] = list(dict.fromkeys(seq))
+                        tag = "mux_inputs_merged"
                     else:
                         n["parents"] = [par if p == name else p for p in n["parents"]]
                         tag = "mux_input_deleted_children_kept"
@@ -983,8 +1000,6 @@ class Driver:
             if tag:
                 stats.cls("effect:" + tag)
                 self.flags.add(tag)
-                if tag == "undefined_mux_reattach":
-                    self.undefined = True
                 self.after_special = 0
             else:
                 self.after_special += 1
@@ -1049,7 +1064,8 @@ class Driver:
         if "C14" in self.focus:
             changed = any(t in f for t in ("renamed", "renamed_mux_input", "deleted_subtree",
                                            "deleted_keep_children",
-                                           "mux_input_deleted_children_kept"))
+                                           "mux_input_deleted_children_kept",
+                                           "mux_inputs_merged"))
             if changed and self.rejected >= 1 and self.steps_ok >= 2:
                 stats.nontriv(h, sample=sample)
         if "C15" in self.focus:
@@ -1059,7 +1075,7 @@ class Driver:
             special = any(t in f for t in ("renamed", "renamed_mux_input",
                                            "deleted_keep_children",
                                            "mux_input_deleted_children_kept",
-                                           "deleted_subtree"))
+                                           "mux_inputs_merged", "deleted_subtree"))
             if special and self.after_special >= 1:
                 stats.nontriv(h, sample=sample)
 
